@@ -77,6 +77,8 @@ def _cases(tier):
         {"name": "dephasing", "basis": "rydberg", "noise": dict(dephasing_rate=2.0)},
         {"name": "eff_excite", "basis": "rydberg", "noise": dict(eff_noise_opers=[e(0, 1)], eff_noise_rates=[2.0])},  # Pulser order (r,g): |r><g|
     ]
+    # relaxation with a leakage level present (3-level operators): symmetric weak leak so that the recorded C24 mapping defect does not matter
+    out.append({"name": "relaxation_with_leak_level", "basis": "rydberg", "noise": dict(relaxation_rate=3.0, with_leakage=True, eff_noise_opers=[e(2, 0, 3) + e(2, 1, 3)], eff_noise_rates=[0.2])})
     if tier == "thorough":
         out += [
             {"name": "depolarizing", "basis": "rydberg", "noise": dict(depolarizing_rate=1.5)},
